@@ -47,7 +47,7 @@ def run_family(job):
 
 
 def run_all(jobs, ncores=None):
-    ncores = ncores or int(os.environ.get('VERIF_CORES', '16'))
+    ncores = ncores or int(os.environ.get('VERIF_CORES') or os.cpu_count() or 16)
     if len(jobs) == 1 or ncores == 1:
         return [run_family(j) for j in jobs]
     # longest first
